@@ -287,3 +287,20 @@ def instrument_wrappers():
                 shim._c12_shim = True
                 return shim
             setattr(cls, mname, make(orig, kind))
+    # the broadcasts of LifxLanApi (retried since D47): same announcement, addressed to the LAN
+    from bardolph.controller import lifx_lan_api
+    for mname, kind in (('set_color_all_lights', 'lan_set_color_all'), ('set_power_all_lights', 'lan_set_power_all')):
+        orig = lifx_lan_api.LifxLanApi.__dict__.get(mname)
+        if orig is None or getattr(orig, '_c12_shim', False):
+            continue
+
+        def make_lan(orig, kind):
+            @functools.wraps(orig)
+            def shim(self, *a, **k):
+                net = FakeLifxLAN.network
+                if net is not None:
+                    net.begin(LAN, kind)
+                return orig(self, *a, **k)
+            shim._c12_shim = True
+            return shim
+        setattr(lifx_lan_api.LifxLanApi, mname, make_lan(orig, kind))
